@@ -1,6 +1,8 @@
 // E13 correspondence harness (C17): a real Server and ClientSession over in-memory transports; the four
 // list methods, add/remove/replace between page fetches, issued / stale / forged / garbage cursors,
-// the client iterators against manual paging. One record per operation (ENGINE_GUIDE.md).
+// the client iterators against manual paging; tools registered through every entry point, Server.AddTool
+// calls parked between their validation and their registering section (addhold / addrelease), refused
+// registrations (addbad). One record per operation (ENGINE_GUIDE.md).
 package mcp
 
 import (
@@ -35,6 +37,9 @@ type pgItem struct{ k, v string }
 type pgIter struct {
 	next func() (pgItem, error, bool)
 	stop func()
+	// the iterator's context: cancelled by a watchdog when a pull hangs (a list request that is never
+	// answered must become an observation, not the end of the harness process)
+	cancel context.CancelFunc
 }
 
 type pgState struct {
@@ -553,8 +558,7 @@ func pgList(st *pgState, kind, raw string) (items []pgItem, next string, err err
 	return nil, "", fmt.Errorf("bad kind")
 }
 
-func pgSeq(st *pgState, kind, raw string) iter.Seq2[pgItem, error] {
-	ctx := context.Background()
+func pgSeq(ctx context.Context, st *pgState, kind, raw string) iter.Seq2[pgItem, error] {
 	switch kind {
 	case "tools":
 		var p *ListToolsParams
@@ -896,8 +900,9 @@ func pgApply(stp **pgState, toks []string) (opline, obs string, tags []string) {
 		if old := st.iters[kind]; old != nil {
 			old.stop()
 		}
-		next, stop := iter.Pull2(pgSeq(st, kind, raw))
-		st.iters[kind] = &pgIter{next: next, stop: stop}
+		ictx, icancel := context.WithCancel(context.Background())
+		next, stop := iter.Pull2(pgSeq(ictx, st, kind, raw))
+		st.iters[kind] = &pgIter{next: next, stop: func() { icancel(); stop() }, cancel: icancel}
 		return opline, "ok", []string{"iopen"}
 	case "ipull":
 		kind := toks[1]
@@ -910,6 +915,9 @@ func pgApply(stp **pgState, toks []string) (opline, obs string, tags []string) {
 		var b strings.Builder
 		b.WriteString("items")
 		end := "more"
+		var hung atomic.Bool
+		watchdog := time.AfterFunc(20*time.Second, func() { hung.Store(true); it.cancel() })
+		defer watchdog.Stop()
 		for i := 0; i < m; i++ {
 			x, err, ok := it.next()
 			if !ok {
@@ -918,6 +926,9 @@ func pgApply(stp **pgState, toks []string) (opline, obs string, tags []string) {
 			}
 			if err != nil {
 				end = pgErrObs(err)
+				if hung.Load() {
+					end = "err timeout"
+				}
 				break
 			}
 			b.WriteString(" " + hxs(x.k) + ":" + hxs(x.v))
@@ -943,7 +954,9 @@ func pgApply(stp **pgState, toks []string) (opline, obs string, tags []string) {
 		b.WriteString("items")
 		end := "end"
 		n := 0
-		for x, err := range pgSeq(st, kind, raw) {
+		actx, acancel := context.WithTimeout(context.Background(), 60*time.Second)
+		defer acancel()
+		for x, err := range pgSeq(actx, st, kind, raw) {
 			if err != nil {
 				end = pgErrObs(err)
 				break
@@ -1635,14 +1648,27 @@ func (g *pgGen) scriptRun(emit pgEmit, kind string) {
 	emit("unscript " + kind)
 }
 
+// pgHangs counts the cases of this run that ended in a request that was never answered (20 s each).
+var pgHangs int
+
 func pgRunCase(out *verifOut, cs string, c int) {
 	rng := verifRng(int64(c))
 	var st *pgState
 	defer func() { st.close() }()
 	g := &pgGen{rng: rng, st: &st}
+	// A request that hangs is observed once (`err timeout`); the rest of the case is not run: every later
+	// request to the stuck server would hang as long again.
+	dead := false
 	emit := func(op string) string {
+		if dead {
+			return "skipped"
+		}
 		opline, obs, tags := pgApply(&st, strings.Fields(op))
 		out.line(cs, opline, obs, tags...)
+		if obs == "err timeout" {
+			dead = true
+			pgHangs++
+		}
 		return obs
 	}
 	out.line(cs, "reset", "ok", "reset")
@@ -1735,7 +1761,7 @@ func TestVerifPaginate(t *testing.T) {
 		}
 	}
 	n := verifN(1200, 12000)
-	for c := 0; c < n; c++ {
+	for c := 0; c < n && pgHangs < 4; c++ { // four hangs observed: more of them only burn the time budget
 		pgRunCase(out, fmt.Sprintf("g%d", c), c)
 		// a hang or crash of a later case must not lose what has been observed so far
 		out.mu.Lock()
